@@ -101,13 +101,13 @@ impl<'a, 'b> Gen<'a, 'b> {
                             // the same file again: only files without directives of their own (keeps the tree acyclic)
                             let cands: Vec<usize> = (1..self.files.len()).filter(|i| self.files[*i].lines.iter().all(|l| matches!(l, Line::Text(_))) && !self.files[*i].lines.is_empty()).collect();
                             if cands.is_empty() {
-                                self.new_file(depth + 1, st)
+                                self.new_file(depth + 1, st, id)
                             } else {
                                 st.class("file-included-twice");
                                 cands[self.t.below(cands.len())]
                             }
                         } else {
-                            self.new_file(depth + 1, st)
+                            self.new_file(depth + 1, st, id)
                         };
                         targets.push(target);
                     }
@@ -151,11 +151,20 @@ impl<'a, 'b> Gen<'a, 'b> {
         v
     }
 
-    fn new_file(&mut self, depth: usize, st: &mut Stats) -> usize {
+    fn new_file(&mut self, depth: usize, st: &mut Stats, includer: usize) -> usize {
         let id = self.files.len();
         let dir = *self.t.pick_ref(DIRS);
         let name = format!("{}{}", id, self.t.pick(NAMES));
-        let rel = if dir.is_empty() { name } else { format!("{}/{}", dir, name) };
+        let mut rel = if dir.is_empty() { name } else { format!("{}/{}", dir, name) };
+        if self.t.chance(1, 12) {
+            // a different file whose path differs from the including file's path in letter case only
+            let theirs = self.files[includer].rel.clone();
+            let swapped: String = theirs.chars().map(|c| if c.is_ascii_lowercase() { c.to_ascii_uppercase() } else { c.to_ascii_lowercase() }).collect();
+            if swapped != theirs && !self.files.iter().any(|f| f.rel == swapped) {
+                rel = swapped;
+                st.class("included-file-named-like-its-includer-in-other-letter-case");
+            }
+        }
         self.files.push(FileSpec { rel, lines: vec![] });
         let n = self.t.len(6);
         let lines = self.body_lines(id, n, depth, st);
@@ -498,7 +507,7 @@ pub fn property() -> Property {
                     Tier::Thorough => Plan::Skip,
                 },
                 case: case_q,
-                min_classes: &[("tree-depth-2", 500), ("file-included-twice", 100), ("include-not-at-first-line", 1000), ("planted-missing-file", 200), ("planted-malformed-line", 500), ("runtime-error-inside-included-file", 100), ("include-chain-deeper-than-64", 150), ("directive-naming-40-or-more-files", 150)],
+                min_classes: &[("tree-depth-2", 500), ("file-included-twice", 100), ("include-not-at-first-line", 1000), ("planted-missing-file", 200), ("planted-malformed-line", 500), ("runtime-error-inside-included-file", 100), ("include-chain-deeper-than-64", 150), ("included-file-named-like-its-includer-in-other-letter-case", 1000), ("directive-naming-40-or-more-files", 150)],
             },
             Section {
                 name: "deep-trees",
